@@ -45,7 +45,10 @@ def _op_exprs(fn: ast.FunctionDef) -> Tuple[Set[str], Set[str]]:
     return a, b
 
 
-def compared_fields(fn: ast.FunctionDef) -> Dict[str, List[ast.AST]]:
+SYMMETRIC_TWO_QUBIT = {"CZ"}      # gates whose two qubits play the same role (confirmed: ops.CZ is the unitary controlled-Z)
+
+
+def compared_fields(fn: ast.FunctionDef, module=None, _depth: int = 0) -> Dict[str, List[ast.AST]]:
     """attr -> compare nodes where the same field of two different operands is compared (`a.f == b.f`, `type(a) is type(b)`,
     `tuple(a.params) != tuple(b.params)`); 'helper:<attr>' when the comparison is delegated to helper(a.f, b.f); 'isinstance' for the
     asymmetric isinstance(a, type(b)).  Operands are recognised by shape (the two sides are the same expression over two different
@@ -65,6 +68,7 @@ def compared_fields(fn: ast.FunctionDef) -> Dict[str, List[ast.AST]]:
             return "type"
         m_ = _re.fullmatch(r"@(\[.*\])?\.(\w+)", t)
         return m_.group(2) if m_ else None
+    from ..core import expand as _expand
     for n in ast.walk(fn):
         if isinstance(n, ast.Compare):
             items = [n.left] + list(n.comparators)
@@ -74,6 +78,24 @@ def compared_fields(fn: ast.FunctionDef) -> Dict[str, List[ast.AST]]:
                     f = field_of(pf) if pf else None
                     if f:
                         out.setdefault(f, []).append(n)
+                    elif pf is not None:
+                        # the two sides may be named intermediates, possibly several fields zipped together, possibly sorted
+                        xe, ye = _expand(fn, x), _expand(fn, y)
+                        pf2 = _pair_field(xe, ye)
+                        if pf2:
+                            unordered = bool(_re.match(r"(sorted|set|frozenset)\(", pf2))
+                            for fm in _re.finditer(r"@(\[[^\]]*\])?\.(\w+)", pf2):
+                                out.setdefault(fm.group(2), []).append(n)
+                                if unordered:
+                                    out.setdefault("unordered:" + fm.group(2), []).append(n)
+        if module is not None and _depth < 2 and isinstance(n, ast.Call) and isinstance(n.func, ast.Name) and len(n.args) == 2 and not n.keywords:
+            pfw = _pair_field(n.args[0], n.args[1])
+            if pfw is not None and _re.fullmatch(r"@(\[[^\]]*\])?", pfw):
+                hf = module.find(n.func.id)
+                if isinstance(hf, ast.FunctionDef):
+                    # both operands handed whole to a helper of the module: the helper's own comparisons count
+                    for k_, v_ in compared_fields(hf, module, _depth + 1).items():
+                        out.setdefault(k_, []).extend(v_)
         if isinstance(n, ast.Call) and isinstance(n.func, ast.Name) and n.func.id not in ("isinstance", "tuple", "list", "zip", "type") and len(n.args) >= 2:
             pf = _pair_field(n.args[0], n.args[1])
             f = field_of(pf) if pf else None
@@ -100,8 +122,26 @@ def rule_cmp_fields(ctx: Ctx) -> None:
     for q, label, by_register in COMPARATORS:
         fn = repo.anchor(CMP, q)
         ctx.touch(m, fn)
-        got = compared_fields(fn)
+        got = compared_fields(fn, m)
         need = ["type", "q_registers_type", "params"] + (["q_registers"] if by_register else [])
+        # registers compared as an unordered collection (sorted / set) forget which register is the control: allowed only under a class guard
+        # that names gates symmetric in their two qubits — the unitary CZ, nothing that measures its control
+        for f in ("q_registers", "q_registers_type"):
+            for cmp_ in got.get("unordered:" + f, []):
+                guard = None
+                q_ = cmp_
+                while parent(q_) is not None and not isinstance(q_, ast.FunctionDef):
+                    pq = parent(q_)
+                    if isinstance(pq, ast.If) and any(q_ is b for b in pq.body) and isinstance(pq.test, ast.Call) and call_name(pq.test) == "isinstance" and len(pq.test.args) == 2:
+                        guard = pq.test.args[1]
+                    q_ = pq
+                classes = [norm(e).split(".")[-1] for e in (guard.elts if isinstance(guard, ast.Tuple) else [guard])] if guard is not None else None
+                if classes is None or any(c_ not in SYMMETRIC_TWO_QUBIT for c_ in classes):
+                    ctx.fail("cmp.fields", m, cmp_,
+                             f"{q} compares `{f}` as an unordered collection (`{short(cmp_, 60)}`)" + (f" for {classes}" if classes else " for every operation") +
+                             f": that is right only for gates symmetric in their two qubits ({sorted(SYMMETRIC_TWO_QUBIT)}); an operation that measures or conditions on "
+                             f"its control (ClassicalCZ, CNOT, ...) with control and target exchanged is a different operation and would compare equal",
+                             func=q, construct=f"{q}: {f} compared without order")
         for f in need:
             if f in got:
                 ctx.ok("cmp.fields", m, got[f][0], what=f"{q}: compares {f}")
@@ -316,6 +356,15 @@ def _decision_check(ctx, m, label, tb, run, required, node, reject_is, func):
     req_keys = {}
     for want in required:
         ks = [k for k, pf in pair.items() if (pf == want or pf.endswith(want) or want in pf) and not (want == "@.q_registers" and "q_registers_type" in pf)]
+        if not ks:
+            # delegated to a helper of the module that receives both operations whole and compares that field itself
+            fld = want.split(".")[-1]
+            for k, pf in pair.items():
+                if pf.startswith("helper:"):
+                    hf = m.find(pf.split(":", 1)[1])
+                    if isinstance(hf, ast.FunctionDef) and fld in compared_fields(hf, m):
+                        ks = [k]
+                        break
         if not ks:
             problems.append(f"the `{want.replace('@', '<op>')}` of the two operations is never compared")
         else:
@@ -753,6 +802,7 @@ def _edit_direct_zip(src: str) -> str:
 
 
 KNOCKOUTS = [
+    Knockout("registers-compared-sorted-for-every-gate", CMP, sub_once("                    op1.q_registers_type == op2.q_registers_type\n                    and op1.q_registers == op2.q_registers\n", "                    sorted(zip(op1.q_registers_type, op1.q_registers)) == sorted(zip(op2.q_registers_type, op2.q_registers))\n"), "cmp.fields", "without order"),
     Knockout("redundant-filter-keeps-only-duplicates", CMP, sub_once("            if not check_isomorphic:\n                new_circuit_list.append(new_circuit)", "            if check_isomorphic:\n                new_circuit_list.append(new_circuit)"), "dedup.model", "drops circuit"),
     Knockout("redundant-filter-drops-on-any-difference", CMP, sub_once("                if circuit_is_isomorphic(current_circuit, to_add_circuit):\n                    check_isomorphic = True", "                if not circuit_is_isomorphic(current_circuit, to_add_circuit):\n                    check_isomorphic = True"), "dedup.model", "drops circuit"),
     Knockout("storage-refuses-on-any-difference", CMP, sub_once("                if f(circuit, new_circuit):\n                    return True", "                if not f(circuit, new_circuit):\n                    return True"), "dedup.model", "refuses circuit"),
